@@ -12,9 +12,11 @@ THEOREMS = ["C13.C13_reject_no_debit", "C13.C13_admit_debits_all", "C13.C13_reje
             "C13.C13_delay_sufficient", "C13.C13_delay_bounds", "C13.C13_reachable", "C13.C13_delay_sufficient_limiter",
             "C13.C13_idle_full_burst", "C13.C13_idle_admits", "C13.C13_idle_full_burst_limiter",
             "C13.C13_over_burst_is_error", "C13.C13_over_burst_is_error_limiter"]
-RACE = False
+RACE = True
 JOBS = 8
 RULE = ("scenario = rate set (1-3 periods) through TokenLimiter.ServeHTTP or a bare TokenBucketSet with floods of refused requests "
+        "(sequential, and concurrent: preq = n requests of one source from 16 goroutines at one frozen instant, repeated for several rounds "
+        "with paced requests in between that the long-period budget must still admit) "
         "(at one instant and spread out, long enough to exhaust the longest-period budget if it were debited), retries exactly at / "
         "just before / after the advertised X-Retry-In, idle gaps around burst*tpt, amounts around every burst; "
         "non-trivial = at least one refusal followed by a retry or by further requests of the same source, and one admission")
@@ -61,8 +63,30 @@ def _flood_scenario(rng, kind):
     return [head] + body
 
 
+def _concurrent_flood(rng, tier):
+    """one admitted request, then a concurrent flood at the same instant (all refused by the short rate), paced single requests
+    in between: the long-period budget must still be there.  Several rounds, both buckets exercised."""
+    sp = rng.choice([S, S, 2 * S, 10 ** 8])
+    short = (sp, 1, 1)
+    lb = rng.randint(3, 8)
+    long_ = (rng.choice([3600 * S, 600 * S]), rng.choice([lb, 100]), lb)
+    rates = [short, long_] if rng.random() < 0.8 else [short, long_, (86400 * S, 1000, 50)]
+    n = {"quick": 2500, "thorough": 6000, "search": 4000}.get(tier, 2500)
+    lines = ["cfg rate %s cap=%d" % (rc.fmt_rates(rates), rng.choice([1, 2, 3]))]
+    t = rng.choice([0, 7, S - 1])
+    for k in range(lb + 2):
+        lines.append("at %d req f 1" % t)
+        lines.append("at %d preq f %d %d %d" % (t, rng.choice([1, 1, 1, 2]), rng.choice([n, n // 2]), rng.choice([16, 16, 8])))
+        if rng.random() < 0.3:
+            lines.append("at %d req f 1" % t)
+        t += sp + rng.choice([0, 0, 1, sp // 2])
+    return lines
+
+
 def gen(rng, tier):
     n_scen = {"quick": 260, "thorough": 2500, "search": 300}.get(tier, 260)
+    for k in range({"quick": 12, "thorough": 60, "search": 20}.get(tier, 12)):
+        yield _concurrent_flood(rng, tier)
     for k in range(n_scen):
         style = rng.random()
         if style < 0.2:
@@ -103,8 +127,58 @@ def monitor(ops, outs):
     within_cap = len(set(e.src for e in evs)) <= cap
     last = {}
     inst = {}      # src -> (t, {amount: (status, delay)} of refused requests since the last change at this instant)
+    # "refused requests do not debit": an independent token-bucket set per source that is debited only by the requests the
+    # implementation admitted (refused ones merely let time pass).  It is judged only while the source cannot have been forgotten
+    # (within capacity, never idle longer than an entry is kept), and only in one direction: a request the implementation refuses
+    # although this set still holds the tokens for it in every rate means tokens left without an admission.
+    keep = 10 * (max(r[0] for r in rates) // S) * S
+    ref = {}       # src -> {"b": {period: [avail, lastRefresh]}, "t": last request, "alive": bool}
+
+    def ref_refill(st, t):
+        for r in rates:
+            b = st["b"][r[0]]
+            c = (t - b[1]) // rc.tpt(r)
+            if c > 0:
+                b[1] = t
+                b[0] = min(r[2], b[0] + c)
+
     for e in evs:
         where = "line %d (%s amount %d at %d)" % (e.idx, e.src or "set", e.amount, e.t)
+        if within_cap:
+            st = ref.get(e.src)
+            if st is None:
+                st = ref[e.src] = {"b": {r[0]: [r[2], e.t if kind == "rate" else 0] for r in rates}, "t": e.t, "alive": True}
+            if kind == "rate" and e.t - st["t"] > keep:
+                st["alive"] = False
+            st["t"] = e.t
+            if st["alive"]:
+                ref_refill(st, e.t)
+                have = min(st["b"][r[0]][0] for r in rates)
+                if e.status == "429" and e.amount <= minb and have >= e.amount:
+                    bad.append("debit: %s refused (429 %d) although, debiting only its admitted requests, every rate still holds at "
+                               "least %d tokens: refused requests have consumed quota" % (where, e.delay, have))
+                    st["alive"] = False
+                elif e.status == "200":
+                    for r in rates:
+                        st["b"][r[0]][0] = max(0, st["b"][r[0]][0] - e.amount)
+                elif e.status == "preq":
+                    n200 = e.counts[0]
+                    want = e.n if e.amount == 0 else (min(e.n, have // e.amount) if e.amount <= minb else 0)
+                    if n200 < want:
+                        bad.append("debit: %s x%d concurrent: %d admitted although, debiting only admitted requests, every rate holds "
+                                   "%d tokens (%d should pass)" % (where, e.n, n200, have, want))
+                        st["alive"] = False
+                    for r in rates:
+                        st["b"][r[0]][0] = max(0, st["b"][r[0]][0] - e.amount * n200)
+        if e.status == "preq":
+            n200, n429, n500 = e.counts
+            if e.amount > minb and n500 != e.n:
+                bad.append("over-burst: %s x%d exceeds burst %d but only %d were answered with an error" % (where, e.n, minb, n500))
+            if e.amount <= minb and n500:
+                bad.append("error: %s x%d is within every burst but %d were refused with an error" % (where, e.n, n500))
+            inst.pop(e.src, None)
+            last[e.src] = e
+            continue
         # a request larger than the burst is refused outright with an error, never with a delay; and only then
         if e.amount > minb and e.status != "500":
             bad.append("over-burst: %s exceeds burst %d but was answered %s, not an error" % (where, minb, e.status))
@@ -159,7 +233,7 @@ def nontrivial(ops, outs):
     for e in evs:
         if e.src in seen429:
             follow = True
-        if e.status == "429":
+        if e.status == "429" or (e.status == "preq" and e.counts[1]):
             seen429.add(e.src)
         if e.status == "200":
             ok = True
@@ -174,6 +248,8 @@ def describe(ops, outs, hist):
     last = {}
     for e in evs:
         hist["out:" + e.status] += 1
+        if e.status == "preq":
+            hist["preq-requests"] += e.n
         if e.retry:
             hist["retry:" + e.status] += 1
         p = last.get(e.src)
